@@ -644,7 +644,7 @@ Proof.
     cbn [set_attributes]. unfold q_applicable. rewrite (q_some _ _ _ _ _ Hr).
     destruct (mem_z (t_otype (stored_target o)) (ar_object_types r)); [|exact I].
     pose proof (set_attribute_modifiable "SET_ATTRIBUTE" cr (stored_target o) (a_name a) r [a] Ho Hr Hm) as H1.
-    destruct (set_attribute (stored_target o) (a_name a) [a]); auto. exact I.
+    destruct (set_attribute (stored_target o) (a_name a) [a]); simpl; auto.
   - unfold q_multivalued, q_modifiable, q. rewrite Hr. policy_compute.
     first [exact I | simpl; left; vm_compute; reflexivity].
 Qed.
@@ -662,12 +662,14 @@ Proof.
         destruct (attr_list_len o (a_name a)) as [n|] eqn:El.
         -- match goal with |- sites_ok _ (if ?c then _ else _) => destruct c eqn:Eidx end; [|exact I].
            rewrite (attrs_listed_list v o _ n Hv Ho El). apply andb_true_iff in Eidx. destruct Eidx as [_ E2]. rewrite E2. exact I.
-        -- apply ok_unguarded. left; vm_compute; reflexivity.
-      * apply ok_unguarded. left; vm_compute; reflexivity.
+        -- match goal with |- sites_ok _ (if ?c then _ else _) => destruct c end; [exact I|].
+           apply ok_unguarded. left; vm_compute; reflexivity.
+      * match goal with |- sites_ok _ (if ?c then _ else _) => destruct c end; [exact I|].
+        apply ok_unguarded. left; vm_compute; reflexivity.
     + destruct (a_index a); [exact I|].
       destruct (attrs_listed_total v o (a_name a)) as [k Hk]. rewrite Hk. destruct k; [exact I|].
       pose proof (set_attribute_modifiable "MODIFY_ATTRIBUTE" cr (stored_target o) (a_name a) r [a] Ho Hr Hm) as H1.
-      destruct (set_attribute (stored_target o) (a_name a) [a]); auto. exact I.
+      destruct (set_attribute (stored_target o) (a_name a) [a]); simpl; auto.
   - unfold q_multivalued, q_modifiable, q. rewrite Hr. policy_compute.
     first [exact I | simpl; left; vm_compute; reflexivity].
 Qed.
@@ -687,10 +689,133 @@ Proof.
       * destruct (attr_field (a_name a)) as [f|] eqn:Ef; [|exact I].
         apply ok_rd_present; [eapply modifiable_field_present; eauto |].
         destruct (loc_match o c); [|exact I].
-        destruct (set_attribute (stored_target o) (a_name a) [a]); auto. exact I.
+        destruct (set_attribute (stored_target o) (a_name a) [a]); simpl; auto.
       * unfold get_attr_unguarded. destruct (attr_field (a_name a)) as [f|] eqn:Ef; [|exact I].
         unfold rd_get1. rewrite (modifiable_field_present _ _ _ _ _ Hr Hm Ef Ho).
-        destruct (set_attribute (stored_target o) (a_name a) [a]); auto. exact I.
+        destruct (set_attribute (stored_target o) (a_name a) [a]); simpl; auto.
   - unfold q_multivalued, q_modifiable, q. rewrite Hr. policy_compute.
     first [exact I | simpl; left; vm_compute; reflexivity].
+Qed.
+
+(* ------------------------------------------------------------------ _process_operation *)
+Lemma ok_norm : forall (P : string -> Prop) o, sites_ok P o -> sites_ok P (match o with Go => Done | o' => o' end).
+Proof. intros P o H. destruct o; auto. Qed.
+
+Theorem step_sites : forall v s cr it,
+  supported_version v = true -> wf_store s -> wf_item it -> crypto_observed cr ->
+  sites_ok (allowed (op_of it) cr) (step v s cr it).
+Proof.
+  intros v s cr it Hv Hs Hw Hc. unfold step.
+  assert (K : sites_ok (allowed (op_of it) cr) (step_raw v s cr it)); [|destruct (step_raw v s cr it); simpl; auto].
+  unfold step_raw.
+  destruct (negb (ver_ge v (min_version it))); [exact I|].
+  destruct it; cbn [op_of].
+  - apply ok_h_create; auto.
+  - apply ok_h_create_key_pair; auto.
+  - apply ok_h_register; auto.
+  - apply ok_h_derive_key; auto.
+  - apply ok_h_locate; auto.
+  - apply ok_h_get; auto.
+  - apply ok_h_get_attributes; auto.
+  - apply ok_h_get_attribute_list; auto.
+  - apply ok_h_activate; auto.
+  - apply ok_h_revoke; auto.
+  - apply ok_h_destroy; auto.
+  - exact I.
+  - exact I.
+  - apply ok_h_crypto_op; auto.
+  - apply ok_h_crypto_op; auto.
+  - apply ok_h_crypto_op; auto.
+  - apply ok_h_crypto_op; auto.
+  - apply ok_h_mac; auto.
+  - apply ok_h_set_attribute; auto.
+  - destruct (ver_ge v (2,0)); [exact I|]. apply ok_h_modify1; auto.
+  - destruct (ver_ge v (2,0)); [|exact I]. apply ok_h_modify2; auto.
+  - destruct (ver_ge v (2,0)); [exact I|]. apply ok_h_delete1; auto.
+  - destruct (ver_ge v (2,0)); [|exact I]. apply ok_h_delete2; auto.
+Qed.
+
+(* whatever the crypto engine did: a crash is at a listed site of the operation, or is the crypto engine's own exception *)
+Theorem crash_sites_observed : forall v s cr it site,
+  supported_version v = true -> wf_store s -> wf_item it -> crypto_observed cr ->
+  step v s cr it = Crash site -> mem_s site (op_sites (op_of it)) = true \/ cr = CExc site.
+Proof.
+  intros v s cr it site Hv Hs Hw Hc H. pose proof (step_sites v s cr it Hv Hs Hw Hc) as K. rewrite H in K. exact K.
+Qed.
+
+Lemma total_observed : forall cr, crypto_total cr -> crypto_observed cr.
+Proof. intros cr [H|H]; subst; discriminate. Qed.
+
+Theorem crash_sites : forall v s cr it site,
+  supported_version v = true -> wf_store s -> wf_item it -> crypto_total cr ->
+  step v s cr it = Crash site -> mem_s site (op_sites (op_of it)) = true.
+Proof.
+  intros v s cr it site Hv Hs Hw Hc H.
+  destruct (crash_sites_observed v s cr it site Hv Hs Hw (total_observed _ Hc) H) as [K|K]; auto.
+  destruct Hc; subst; discriminate.
+Qed.
+
+(* ---- the sites are exactly signatures of findings.d/C13.json *)
+Definition finding_listed (op site : string) : bool :=
+  existsb (fun p => String.eqb (snd (fst p)) op && String.eqb (snd p) site) known_finding_sites.
+
+Definition all_ops : list string :=
+  ["CREATE"; "CREATE_KEY_PAIR"; "REGISTER"; "DERIVE_KEY"; "LOCATE"; "GET"; "GET_ATTRIBUTES"; "GET_ATTRIBUTE_LIST"; "ACTIVATE";
+   "REVOKE"; "DESTROY"; "QUERY"; "DISCOVER_VERSIONS"; "ENCRYPT"; "DECRYPT"; "SIGN"; "SIGNATURE_VERIFY"; "MAC"; "SET_ATTRIBUTE";
+   "MODIFY_ATTRIBUTE"; "DELETE_ATTRIBUTE"].
+
+Lemma op_sites_listed : forallb (fun op => forallb (finding_listed op) (op_sites op)) all_ops = true.
+Proof. vm_compute. reflexivity. Qed.
+
+Lemma op_in_all : forall it, In (op_of it) all_ops.
+Proof. destruct it; simpl; tauto. Qed.
+
+Lemma mem_s_in : forall x l, mem_s x l = true -> exists y, In y l /\ String.eqb x y = true.
+Proof. unfold mem_s. intros x l H. apply existsb_exists in H. exact H. Qed.
+
+Lemma site_is_finding : forall it site, mem_s site (op_sites (op_of it)) = true -> finding_listed (op_of it) site = true.
+Proof.
+  intros it site H. pose proof op_sites_listed as L. rewrite forallb_forall in L.
+  specialize (L _ (op_in_all it)). rewrite forallb_forall in L.
+  destruct (mem_s_in _ _ H) as [y [Hy Ey]]. apply String.eqb_eq in Ey. subst y. auto.
+Qed.
+
+(* the request hits the signature of a recorded finding *)
+Definition known_crash (v : version) (s : store) (cr : cres) (it : item) : bool :=
+  match step v s cr it with Crash site => finding_listed (op_of it) site | _ => false end.
+
+Theorem no_crash_partial : forall v s cr it,
+  supported_version v = true -> wf_store s -> wf_item it -> crypto_total cr ->
+  known_crash v s cr it = false -> step_crash v s cr it = false.
+Proof.
+  intros v s cr it Hv Hs Hw Hc Hk. unfold step_crash, known_crash in *.
+  destruct (step v s cr it) as [| |site] eqn:E; auto.
+  pose proof (crash_sites v s cr it site Hv Hs Hw Hc E) as K. apply site_is_finding in K. congruence.
+Qed.
+
+(* operations without any recorded site never reach the internal-error path *)
+Definition clean_op (it : item) : bool := match op_sites (op_of it) with [] => true | _ => false end.
+
+Theorem no_crash_clean_ops : forall v s cr it,
+  supported_version v = true -> wf_store s -> wf_item it -> crypto_total cr -> clean_op it = true ->
+  step_crash v s cr it = false.
+Proof.
+  intros v s cr it Hv Hs Hw Hc Hcl. unfold step_crash.
+  destruct (step v s cr it) as [| |site] eqn:E; auto.
+  pose proof (crash_sites v s cr it site Hv Hs Hw Hc E) as K. unfold clean_op in Hcl.
+  destruct (op_sites (op_of it)); [discriminate K | discriminate Hcl].
+Qed.
+
+Lemma clean_ops_are : forall it, clean_op it = true <->
+  In (op_of it) ["CREATE"; "CREATE_KEY_PAIR"; "GET_ATTRIBUTE_LIST"; "ACTIVATE"; "REVOKE"; "DESTROY"; "QUERY"; "DISCOVER_VERSIONS";
+                 "ENCRYPT"; "DECRYPT"; "SIGN"; "SIGNATURE_VERIFY"].
+Proof. destruct it; vm_compute; intuition; try discriminate. Qed.
+
+(* the model never reaches the crypto engine without saying so: a run whose oracle says "not called" crashes at the sentinel only *)
+Theorem sentinel_only_when_predicted : forall v s it,
+  reaches_crypto v s it = true <-> step v s CNotCalled it = Crash sentinel.
+Proof.
+  intros. unfold reaches_crypto. destruct (step v s CNotCalled it) as [| |site]; split; intro H; try discriminate.
+  - apply String.eqb_eq in H. subst. reflexivity.
+  - inversion H. apply String.eqb_refl.
 Qed.
